@@ -165,7 +165,8 @@ func (p *clientStreamProcessorFMP4) processSegment(ctx context.Context, seg *seg
 	}
 
 	leadingPartTrack := findFirstPartTrackOfLeadingTrack(parts, p.leadingTrackID)
-	if leadingPartTrack == nil {
+	// a segment of a rendition may be empty, when no sample falls into its time span
+	if leadingPartTrack == nil && p.isLeading {
 		return fmt.Errorf("could not find data of leading track")
 	}
 
